@@ -32,7 +32,8 @@ RULE = ('(A) operation sequences (<= 30 steps of setitem, del, pop, popitem, '
         'versions 16..12; non-trivial = a deletion followed by save/load or '
         'reset / a non-default field in the round trip.  (B) configure with '
         'generated environment E1, toolchain statements and options, then '
-        'regenerate/env/run under an ambient that differs from E1 in a '
+        'regenerate (forced and lazy; optionally one that fails part-way '
+        'through the toolchain file)/env/run under an ambient that differs from E1 in a '
         'variable bfg9000 reads; non-trivial = ambient differs in CC/CFLAGS/'
         'CPPFLAGS/LDFLAGS or the toolchain mutates a variable; distinct = '
         'abstracted operation sequence / option shape.')
